@@ -52,8 +52,10 @@ ASSUMPTIONS = [
     "documentation and its unit tests)",
     "a stream 'was given power' iff its column of Ms is not exactly zero "
     "(doWF returns exact zeros); the receive-filter check is skipped (and "
-    "counted as near_threshold_excluded) when ||W||*||newH|| > 1e7, i.e. a "
-    "stream sits within 1e-14 relative power of the water-filling threshold",
+    "counted as near_threshold_excluded) when the largest column norm of "
+    "newH exceeds the smallest powered one by more than 1e7 (= condition "
+    "number of the powered part), i.e. a stream sits within 1e-14 relative "
+    "received power of the water-filling threshold; never observed",
     "ext-int variants: the noise variance is set on the channel object (the "
     "documented way; without it the interference covariance is singular), "
     "pe > 0",
